@@ -82,6 +82,11 @@ CHECKS["C19"] = ("model_checking",
     "All 12 request kinds x command context in {accepted, rejected with the same abstract syntax, another kind's accepted/rejected, never proposed 201/255, invalid 0/2/100} x data context in {same, accepted, rejected}: no handler call and no normal response unless the command set arrived on an accepted context.",
     "Trusted: one emulated reactor iteration (get_msg -> _serve_request); transport cut at dul.send_pdu. A data fragment mislabelled with another id is observed (DRIFT), not judged.", "§6 C19", "ctxguard")
 
+CHECKS["C24"] = ("model_checking",
+    "TLA+ Scu spec (peer as environment: responses, undecodable identifiers, 0xB001, invalid / unexpected messages, sub-operation requests, silence) model-checked by TLC; every peer script TLC finds is played, through the real DIMSE decoder, to the real send_c_find/get/move iterators and the eight single-response send_* calls (S2C); yields, abort and the AE lock at every yield are judged by the Trace_Scu spec (C2S)",
+    "All peer scripts of up to 4 (5 thorough) items for C-FIND (Patient Root and Repository Query), C-GET, C-MOVE and all one-item scripts for C-ECHO, C-STORE and the six DIMSE-N calls: each response yielded exactly once in order (attributed by a tag carried in the response), stop at the first non-Pending, documented empty result plus abort on silence / invalid / unexpected message, None for undecodable identifiers, AE lock free at every yield and after the iterator ends.",
+    "Trusted: requestor Association with the transport cut at dul.send_pdu; dimse_timeout 0.05 s; Deflated transfer syntax for undecodable identifiers.", "§6 C24", "scu")
+
 NOT_YET = {}
 
 
